@@ -71,8 +71,8 @@ func (x *Exec) generate() {
 	fn := x.Top
 	st := NewState()
 	st.Next = Const("next0", IntS)
-	x.VC.Assume(True, IntCmp(">=", st.Next, IntLit(1)), "next0")
-	x.VC.Assume(True, IntCmp("<", st.Next, IntLit(1000000)), "next0-below-reserved")
+	// objects 1..2999 are reserved for sentinel values, string literals and function values; they exist before the activation
+	x.VC.Assume(True, IntCmp(">=", st.Next, IntLit(3000)), "next0")
 	var args []Value
 	for _, p := range fn.Params {
 		v := x.freshValue(p.Type(), "p."+p.Name(), True, st)
@@ -92,6 +92,15 @@ func (x *Exec) generate() {
 	}
 	x.Entry = st.Clone()
 	x.setupGhostEntry(st)
+	// axioms about package-level state
+	for _, c := range x.P.Spec.Axioms {
+		aenv := x.topSpecEnv(st, True, true)
+		aenv.vars = map[string]Value{}
+		g := aenv.EvalBool(c.Expr)
+		x.reportSpecErrors(aenv, "axiom", c)
+		x.VC.Assume(True, g, "axiom")
+		x.VC.Assumptions["axiom (assumed about package-level variables): "+c.Text] = true
+	}
 	// requires
 	env := x.topSpecEnv(st, True, true)
 	var pre []*Term
@@ -126,6 +135,27 @@ func (x *Exec) generate() {
 				penv.vars["result"] = vals[0]
 			}
 		}
+	}
+	// ghost updates declared by the contract happen at the return
+	for _, c := range x.Case.Clauses {
+		if c.Kind != "ghostset" {
+			continue
+		}
+		for _, rp := range x.topRets {
+			renv := x.topSpecEnv(rp.st, rp.guard, true)
+			for i, nm := range resultNames(fn.Signature) {
+				if i < len(rp.vals) {
+					renv.vars[nm] = rp.vals[i]
+					if i == 0 {
+						renv.vars["result"] = rp.vals[0]
+					}
+				}
+			}
+			x.applyGhostSet(c, renv, rp.st)
+			x.reportSpecErrors(renv, x.TopName, c)
+		}
+		x.applyGhostSet(c, penv, out)
+		x.reportSpecErrors(penv, x.TopName, c)
 	}
 	// postconditions are proved at every return point separately (states are not merged in the goal)
 	for _, c := range x.Case.Clauses {
@@ -173,8 +203,14 @@ func (x *Exec) frameObligations(out *State, rg *Term, penv *SpecEnv) {
 	type rng struct{ mt modTarget }
 	byKey := map[string][]modTarget{}
 	var order []string
+	freshOnly := false
 	for _, c := range x.Case.Clauses {
-		if c.Kind != "modifies" {
+		if c.Kind == "modifies" && c.Text == "fresh" {
+			freshOnly = true
+		}
+	}
+	for _, c := range x.Case.Clauses {
+		if c.Kind != "modifies" || c.Text == "fresh" {
 			continue
 		}
 		mt, ok := x.evalModifies(c, entryEnv)
@@ -196,6 +232,25 @@ func (x *Exec) frameObligations(out *State, rg *Term, penv *SpecEnv) {
 			order = append(order, k)
 		}
 		byKey[k] = append(byKey[k], mt)
+	}
+	if freshOnly {
+		// `modifies fresh`: every write to a component without a declared target is to an object allocated here
+		for _, w := range out.Writes {
+			covered := false
+			for _, k := range order {
+				if w.key == k || strings.HasPrefix(w.key, k+".") {
+					covered = true
+				}
+			}
+			if covered || w.fresh || strings.HasPrefix(w.key, "ghost.") {
+				continue
+			}
+			goal := False
+			if w.obj != nil {
+				goal = IntCmp(">=", w.obj, x.Entry.Next)
+			}
+			x.Oblige("frame", "fresh-only:"+w.key, "", x.Top.Pos(), And(rg, w.guard), goal, nil)
+		}
 	}
 	for _, k := range order {
 		mts := byKey[k]
@@ -370,7 +425,7 @@ func solveOne(o *Obligation, opt Options) (SolverResult, *Query) {
 		if scalar {
 			plan = []attempt{{true, 2, 4}, {true, 102, 3}, {true, 0, 2}, {false, 0, 1}}
 		} else {
-			plan = []attempt{{false, 2, 4}, {false, 4, 3}, {false, 102, 3}, {false, 0, 1}}
+			plan = []attempt{{false, 2, 4}, {false, 4, 3}, {false, 102, 3}, {false, 0, 1}, {false, 1000, 1}}
 			if os.Getenv("GOVC_NOSINE") != "" {
 				plan = []attempt{{false, 0, 1}}
 			}
@@ -452,6 +507,24 @@ func applyResult(r *OblResult, o *Obligation, sr SolverResult, q *Query) {
 		r.failedPiece = sr.failedPiece
 		r.Solver = sr.Solver
 		r.Detail = sr.Status
+		if sr.failedPiece != nil {
+			fp := sr.failedPiece
+			txt := TermText(fp)
+			if fp.Op == "=>" {
+				c := TermText(fp.Args[1])
+				if len(c) > 500 {
+					c = c[:500] + "..."
+				}
+				h := TermText(fp.Args[0])
+				if len(h) > 200 {
+					h = h[:200] + "..."
+				}
+				txt = "CONSEQUENT " + c + "  UNDER " + h
+			} else if len(txt) > 500 {
+				txt = txt[:500] + "..."
+			}
+			r.Detail += " on piece " + txt
+		}
 		if q != nil {
 			r.query = q.Text
 			r.q = q
